@@ -966,7 +966,12 @@ int sx127x_lora_set_ppm_offset(int32_t frequency_error, sx127x *device) {
   CHECK_MODULATION(device, SX127x_MODULATION_LORA);
   uint64_t frequency;
   ERROR_CHECK(sx127x_get_frequency(device, &frequency));
-  uint8_t value = (uint8_t) (0.95f * ((float) frequency_error / (frequency / 1E6f)));
+  float ppm = 0.95f * ((float) frequency_error / (frequency / 1E6f));
+  // RegPpmCorrection holds a signed 8 bit value
+  if (!(ppm > -129.0f && ppm < 128.0f)) {
+    return SX127X_ERR_INVALID_ARG;
+  }
+  uint8_t value = (uint8_t) (int8_t) ppm;
   return sx127x_shadow_spi_write_register(0x27, &value, 1, &device->spi_device);
 }
 
